@@ -259,7 +259,7 @@ impl Oracle for CreditOracle {
 
 fn run(ch: Chooser, ctx: &RunCtx, mut opts: BasicOpts, tiny: bool) -> RunOut {
     let mut w = World::from_ctx(ch, ctx);
-    opts.op_kinds = vec![0, 1, 2, 3, 4, 2, 4];
+    opts.op_kinds = vec![0, 1, 2, 3, 4, 2, 4, 9];
     opts.ops_max = 6;
     opts.allow_corrupt = false;
     if tiny {
